@@ -321,14 +321,14 @@ Proof.
   - destruct (route true f) eqn:R.
     + destruct (bound_for true f) as [b|] eqn:B.
       * match type of H with (if ?c then _ else _) = _ => destruct c eqn:E; [|discriminate] end.
-        apply andb_true_iff in E as [E _]. apply andb_true_iff in E as [_ E]. apply N.eqb_eq in E.
+        apply andb_true_iff in E as [E _]. apply andb_true_iff in E as [E _]. apply andb_true_iff in E as [_ E]. apply N.eqb_eq in E.
         simpl. split; auto. rewrite B. exact E.
       * simpl. split; auto. rewrite B. exact I.
     + destruct (N.eqb (f_spec fl) 0); [|discriminate]. destruct (Typing.apply _ f _); discriminate.
   - destruct (route false f) eqn:R.
     + destruct (bound_for false f) as [b|] eqn:B.
       * match type of H with (if ?c then _ else _) = _ => destruct c eqn:E; [|discriminate] end.
-        apply andb_true_iff in E as [E _]. apply andb_true_iff in E as [_ E]. apply N.eqb_eq in E.
+        apply andb_true_iff in E as [E _]. apply andb_true_iff in E as [E _]. apply andb_true_iff in E as [_ E]. apply N.eqb_eq in E.
         simpl. split; auto. rewrite B. exact E.
       * simpl. split; auto. rewrite B. exact I.
     + destruct (N.eqb (f_spec fl) 0); [|discriminate]. destruct (Typing.apply _ f _); discriminate.
